@@ -83,6 +83,19 @@ func runScenarios(env kit.Env, rep *kit.Report, known *knownHits) {
 	outs = append(outs, scenarioMailboxFinishWindow(false, 1), scenarioMailboxFinishWindow(false, 2))
 	outs = append(outs, scenarioSubmitAcrossClose("batch", attempts/2), scenarioSubmitAcrossClose("worker", attempts/2))
 	outs = append(outs, scenarioBatchCloseSaturated(false, false))
+	// MC_f7 (re-schedule without the flag: two drains of one shard); the code as it is must not reproduce.
+	// The variants wait the same bound for a signal only defective code emits, so they run side by side.
+	resched := make([]outcome, 2)
+	var wg sync.WaitGroup
+	for k, workers := range []int{2, 3} {
+		wg.Add(1)
+		go func() {
+			defer wg.Done()
+			resched[k] = scenarioMailboxReschedOverlap(workers)
+		}()
+	}
+	wg.Wait()
+	outs = append(outs, resched...)
 
 	reproduced := map[string]bool{}
 	for _, o := range outs {
@@ -123,6 +136,33 @@ type runCfg struct {
 	Mode           string // after | concurrent | frozen
 	CloseAfter     int    // concurrent/frozen: Close is called once this many Submit calls returned
 	Yields         int    // scheduling noise
+	// Paced (mailbox): producers, handlers and the drain's exit path (observer callback of the "worker"
+	// observation) pause for seeded sub-millisecond times, Workers >= 2: drains run dry between arrivals,
+	// items arrive while a drain is on its way out (finishShardDrain's re-schedule path) and while the
+	// re-scheduled drain is inside the handler.  Pauses are noise only; the oracle is Trace.tla.
+	Paced bool
+}
+
+// pacedObs pauses the drain goroutine in every second "worker" observation of a shard: a drain emits
+// one when it starts and one on its way out, just before finishShardDrain (drains of one shard do not
+// overlap in a correct mailbox, so the even ones are the exits).
+type pacedObs struct {
+	pause func(max int)
+	mu    sync.Mutex
+	seen  map[int]int
+}
+
+func (p *pacedObs) ObserveShardedMailbox(o wq.ShardedMailboxObservation) {
+	if o.Kind != "worker" {
+		return
+	}
+	p.mu.Lock()
+	p.seen[o.Shard]++
+	exit := p.seen[o.Shard]%2 == 0
+	p.mu.Unlock()
+	if exit {
+		p.pause(400)
+	}
 }
 
 type itemInfo struct {
@@ -186,6 +226,18 @@ func genCfg(rng *rand.Rand, n int) runCfg {
 		}
 	case "mailbox":
 		c.Mode = []string{"after", "concurrent", "frozen"}[rng.Intn(3)]
+		if rng.Intn(2) == 0 {
+			c.Paced = true
+			c.Mode = []string{"after", "after", "concurrent"}[rng.Intn(3)]
+			c.Workers = 2 + rng.Intn(2)
+			c.Shards = 1 + rng.Intn(2)
+			c.QueueSize = 2 + rng.Intn(3)
+			c.BatchMax = 1 + rng.Intn(2)
+			c.BatchWait = false
+			c.Producers = 2 + rng.Intn(3)
+			c.ItemsPer = 3 + rng.Intn(4)
+			c.CloseAfter = rng.Intn(c.Producers*c.ItemsPer + 1)
+		}
 	}
 	return c
 }
@@ -207,6 +259,14 @@ func build(c runCfg, lg *runLog, frozen <-chan struct{}, rng *rand.Rand) (primit
 			yield(k)
 		}
 	}
+	// pause sleeps a seeded time below max microseconds (paced runs only)
+	pause := func(max int) {
+		k := (hseed + hcount.Add(1)*2654435761) % int64(max+1)
+		if k < 0 {
+			k = -k
+		}
+		time.Sleep(time.Duration(k) * time.Microsecond)
+	}
 	handle := func(shard int, items []int) {
 		cp := append([]int{}, items...)
 		lg.add(kit.Ev("HStart", "shard", shard, "res", map[string]any{"items": cp}), func(int) {
@@ -220,6 +280,9 @@ func build(c runCfg, lg *runLog, frozen <-chan struct{}, rng *rand.Rand) (primit
 			<-frozen
 		}
 		noise()
+		if c.Paced {
+			pause(600)
+		}
 		lg.add(kit.Ev("HEnd", "shard", shard, "res", map[string]any{"items": cp}), nil)
 	}
 	cancelHook := func(i int, _ error) {
@@ -286,6 +349,9 @@ func build(c runCfg, lg *runLog, frozen <-chan struct{}, rng *rand.Rand) (primit
 			QueueSizePerShard: c.QueueSize, BatchMaxItems: c.BatchMax}
 		if c.BatchWait {
 			cfg.BatchMaxWait = 200 * time.Microsecond
+		}
+		if c.Paced {
+			cfg.Observer = &pacedObs{pause: pause, seen: map[int]int{}}
 		}
 		m, err := wq.NewShardedMailbox[int](cfg, func(_ context.Context, b wq.MailboxBatch[int]) error {
 			handle(b.Shard, b.Items)
@@ -358,8 +424,12 @@ func oneRun(c runCfg, rng *rand.Rand) (*runLog, string) {
 		p := p
 		seeds := make([]int, c.ItemsPer)
 		shards := make([]int, c.ItemsPer)
+		paces := make([]int, c.ItemsPer)
 		for k := range seeds {
 			seeds[k] = rng.Intn(c.Yields + 1)
+			if c.Paced {
+				paces[k] = rng.Intn(1500)
+			}
 			if c.Kind == "mailbox" {
 				shards[k] = rng.Intn(c.Shards)
 			}
@@ -370,6 +440,9 @@ func oneRun(c runCfg, rng *rand.Rand) (*runLog, string) {
 			for k := 0; k < c.ItemsPer; k++ {
 				item := (p-1)*c.ItemsPer + k + 1
 				yield(seeds[k])
+				if c.Paced {
+					time.Sleep(time.Duration(paces[k]) * time.Microsecond)
+				}
 				lg.add(kit.Ev("Call", "p", p, "item", item, "shard", shards[k]), func(int) {
 					lg.items[item] = &itemInfo{retSeq: -1}
 				})
@@ -469,7 +542,11 @@ func runRandom(env kit.Env, rep *kit.Report, rec *kit.Recorder, known *knownHits
 			rec.Step(ev, nil)
 			rep.Cover(kit.Str(ev, "a"))
 		}
-		kinds[c.Kind+"/"+c.Mode]++
+		if c.Paced {
+			kinds[c.Kind+"/"+c.Mode+"/paced"]++
+		} else {
+			kinds[c.Kind+"/"+c.Mode]++
+		}
 	}
 	rep.Extra("random_histories_by_kind_mode", kinds)
 	rep.Extra("random_histories_matched_to_known_defects", matched)
